@@ -1,11 +1,11 @@
 SPECIFICATION Spec
 CONSTANTS
   Ids = {1, 2}
-  Cfgs = {"c1", "c2", "c3", "c5", "c6", "c7"}
+  Cfgs = {"c1", "c3", "c7", "c9"}
   OwnScaleCfgs = {"c3"}
   NiceSensitive = {"c7"}
   NoOptCfgs = {"c7", "c9", "c10", "c11"}
-  ShareWhenOmitted = FALSE
+  ShareWhenOmitted = TRUE
   FitAxisAtExport = FALSE
   ReadsSharedDirection = FALSE
   ShareDefaultScale = FALSE
